@@ -156,8 +156,28 @@ def hook_reinforce(model, mon, kind, B_hint=None):
 
         model.shared_step = shared_step
     warm_n = getattr(bl, "n_epochs", None)
-    warm_beta = getattr(getattr(bl, "warmup_baseline", None), "beta", 0.8)
-    beta = getattr(inner, "beta", 0.8) if kind in ("exponential", "mean") else None
+    # decay factors as CONFIGURED by the case (documented defaults 0.8; "mean" = decay 0), not as found on the library's objects
+    warm_beta = mon.case.get("exp_beta", 0.8) if kind == "rollout" else getattr(getattr(bl, "warmup_baseline", None), "beta", 0.8)
+    beta = (0.0 if kind == "mean" else mon.case.get("beta", 0.8)) if kind in ("exponential", "mean") else None
+
+    scale = mon.case.get("reward_scale")
+    hist = []  # every advantage value the scaler has been shown so far (the documented running statistics are over all of them)
+
+    def scale_adv(a):
+        """documented transform of the advantage (reward_scale): None -> as is; int -> / int; 'norm' -> (a - running mean) / running
+        std; 'scale' -> a / running std; running statistics = mean and sample std of ALL advantages seen so far incl. this batch"""
+        if scale is None:
+            return a
+        if isinstance(scale, int):
+            return a / scale
+        hist.extend(a.reshape(-1).double().tolist())
+        h = torch.tensor(hist, dtype=torch.float64)
+        mu, sd = h.mean(), (h.std(unbiased=True) if h.numel() > 1 else torch.tensor(float("nan"), dtype=torch.float64))
+        eps = torch.finfo(torch.float32).eps
+        mon.ctx.count("c16_scaled_advantage_steps")
+        if scale == "norm":
+            return ((a.double() - mu) / (sd + eps)).float()
+        return (a.double() / (sd + eps)).float()
 
     def wrapped(td, batch, policy_out, reward=None, log_likelihood=None):
         R = reward if reward is not None else policy_out["reward"]
@@ -281,13 +301,15 @@ def hook_reinforce(model, mon, kind, B_hint=None):
                         mon.v("shared_regrouping", "the library's [instance, start] regrouping of rewards does not match the row layout (row r = start r//B of instance r%B)")
                         return out
                     ctx.count("c16_shared_groups_checked", Bn)
-            ref = -(adv.reshape(-1) * flatLL).mean()
+            # the library scales the [B, S]-shaped advantages: same values, the running statistics do not depend on the order
+            ref = -(scale_adv(adv.t().contiguous()).t().reshape(-1) * flatLL).mean() if scale is not None else -(adv.reshape(-1) * flatLL).mean()
             mon.compare(out["loss"], ref, ps, ll=flatLL)
             ctx.nontrivial_case(dict(c=mon.case, step=mon.step))
             return out
         else:
             raise KeyError(kind)
-        ref = -((Rd - b) * LL).mean() + bl_loss_ref
+        adv = scale_adv(Rd - b)
+        ref = -(adv * LL).mean() + bl_loss_ref
         mon.compare(out["loss"], ref, ps, ll=policy_out["log_likelihood"])
         ctx.nontrivial_case(dict(c=mon.case, step=mon.step))
         return out
@@ -419,6 +441,13 @@ def case(ctx, case):
         pol = big() if b == "critic" else small()
         pol.train()
         bk = dict(n_epochs=case["warm"]) if (b == "rollout" and case.get("warm")) else {}
+        if b == "rollout" and case.get("exp_beta") is not None:
+            bk["exp_beta"] = case["exp_beta"]  # documented: decay of the exponential baseline used during warm-up
+        if b == "exponential" and case.get("beta") is not None:
+            bk["beta"] = case["beta"]
+        if case.get("reward_scale") is not None:
+            kw["reward_scale"] = case["reward_scale"]
+            mon.sig = dict(mon.sig, reward_scale=str(case["reward_scale"]) if isinstance(case["reward_scale"], str) else "int")
         if b == "critic":
             from rl4co.models.rl.common.critic import create_critic_from_actor
             from rl4co.models.rl.reinforce.baselines import CriticBaseline
@@ -447,6 +476,9 @@ def case(ctx, case):
     elif kind == "pomo":
         pol = policies.make("am_instnorm", env, seed=seed % 7)
         pol.train()
+        if case.get("reward_scale") is not None:
+            kw["reward_scale"] = case["reward_scale"]
+            mon.sig = dict(mon.sig, reward_scale=str(case["reward_scale"]) if isinstance(case["reward_scale"], str) else "int")
         model = M.POMO(env, pol, num_starts=case.get("S", 3), num_augment=8, **kw)
         hook_reinforce(model, mon, "shared")
         hook_after_backward(model, mon, "POMO loss")
